@@ -50,12 +50,13 @@ def _consts_cfg(c):
                 c["DDelay"], c["DActive"], c["DProtocol"], c["DMax"]))
 
 
-def _mc_cfg(c, procs, kinds, gsize, need, limits, max_attempts, constraint=True, invs=INVS):
+def _mc_cfg(c, procs, kinds, gsize, need, limits, max_attempts, constraint=True, invs=INVS, quiet=False):
     return ("SPECIFICATION Spec\nCONSTANTS\n" + _consts_cfg(c) +
             "  Procs = {%s}\n  Kinds = {%s}\n  GroupSize = %d\n  Need = %d\n  Start0 = 1000\n  Limits = {%s}\n"
             "  MaxAttempts = %d\n" % (", ".join(map(str, procs)), ", ".join('"%s"' % k for k in kinds), gsize, need,
                                       ", ".join(map(str, sorted(limits))), max_attempts) +
-            ("CONSTRAINT FewPendingWaiters\n" if constraint else "") + "INVARIANTS " + invs + "\n")
+            ("CONSTRAINT FewPendingWaiters\n" if constraint else "") + ("CONSTRAINT QuietContext\n" if quiet else "") +
+            "INVARIANTS " + invs + "\n")
 
 
 def run(ctx):
@@ -108,7 +109,8 @@ def run(ctx):
                           cfg_text=_mc_cfg(c, [1], ["signing", "dkg"], 3, 2, limits, ctx.pick(3, 4)),
                           label="MC_One", timeout=ctx.pick(1200, 3000), workers=4, expect=("ok", "violation"))
         f_two = ex.submit(ctx.tlc, SPEC, "AttemptWindows",
-                          cfg_text=_mc_cfg(c, [1, 2], ctx.pick(["signing"], ["signing", "dkg"]), 2, 2, {0, int(c["DkgLimit"])}, 2),
+                          cfg_text=_mc_cfg(c, [1, 2], ctx.pick(["signing"], ["signing", "dkg"]), 2, 2, {0, int(c["DkgLimit"])}, 2,
+                                           quiet=not ctx.thorough),
                           label="MC_Two", timeout=ctx.pick(1200, 3000), workers=4, expect=("ok", "violation"))
         f_tr = ex.submit(validate, lines, 0)
         mcs = [("MC_Coverage", f_cov.result()), ("MC_One", f_one.result()), ("MC_Two", f_two.result())]
